@@ -64,7 +64,10 @@ impl<'a> Multiboot2Header<'a> {
             return Err(LoadError::Memory(MemoryError::WrongAlignment));
         }
 
-        let mut windows = buffer[0..8192].windows(4);
+        // The header must start within the first 8192 bytes (or within the
+        // buffer, if that is shorter).
+        let search_len = buffer.len().min(8192);
+        let mut windows = buffer[0..search_len].windows(4);
         let magic_index = match windows.position(|vals| {
             u32::from_le_bytes(vals.try_into().unwrap()) // yes, there's 4 bytes here
             == MAGIC
@@ -78,28 +81,21 @@ impl<'a> Multiboot2Header<'a> {
             }
             None => return Ok(None),
         };
-        // skip over rest of magic
-        windows.next();
-        windows.next();
-        windows.next();
-        // arch
-        windows.next();
-        windows.next();
-        windows.next();
-        windows.next();
+        // The length is the third u32 of the header. It may lie beyond the
+        // search window, but must lie inside the buffer.
         let header_length: usize = u32::from_le_bytes(
-            windows
-                .next()
+            buffer
+                .get(magic_index + 8..magic_index + 12)
                 .ok_or(LoadError::Memory(MemoryError::MissingPadding))?
                 .try_into()
                 .unwrap(), // 4 bytes are a u32
         )
         .try_into()
         .unwrap();
-        Ok(Some((
-            &buffer[magic_index..magic_index + header_length],
-            magic_index as u32,
-        )))
+        let header = buffer
+            .get(magic_index..magic_index.saturating_add(header_length))
+            .ok_or(LoadError::Memory(MemoryError::InvalidReportedTotalSize))?;
+        Ok(Some((header, magic_index as u32)))
     }
 
     /// Returns a [`TagIter`].
